@@ -34,6 +34,7 @@ const (
 	postGexit  = uint64(1) << 44
 	postNest   = uint64(0x10000)
 	postVia    = uint64(0x1000000)
+	postTlk    = uint64(1) << 48
 	hopOKBase  = 1000
 	hopCaught  = 2000
 	hopTrapDir = 3000 // hop result >= 3000: the guest traps with kind result-3000
@@ -105,6 +106,7 @@ func buildGuest(o guestOpts) []byte {
 	hostPanic := m.ImportFunc("env", "host_panic", []byte{i32}, nil)
 	hostExit := m.ImportFunc("env", "host_exit", []byte{i32, i32}, nil)
 	observe := m.ImportFunc("env", "observe", []byte{i32}, []byte{i32})
+	tlookup := m.ImportFunc("env", "tlookup", []byte{i32}, []byte{i32})
 	procExit := m.ImportFunc("wasi_snapshot_preview1", "proc_exit", []byte{i32}, nil)
 	var peerNest uint32
 	var peerGhp, peerGexit, peerObs [2]uint32 // [direct, indirect] forms of B's exports
@@ -168,6 +170,11 @@ func buildGuest(o guestOpts) []byte {
 	c = code()
 	emitAtomicProbe(c, 0, false)
 	m.ExportFunc("aprobe", m.AddFunc([]byte{i32}, []byte{i64}, nil, c.End().B))
+	// tlk(off, addr, val) -> i32: the host resolves table[off] through experimental/table.LookupFunction and calls it
+	c = bump(code(), 1)
+	c.LocalGet(1).LocalGet(2).Mem(0x37, 3, 0).LocalGet(0).Call(tlookup)
+	bump(c, postTlk).End()
+	m.ExportFunc("tlk", m.AddFunc([]byte{i32, i32, i64}, []byte{i32}, nil, c.B))
 	// tnull(idx) -> i32
 	m.ExportFunc("tnull", m.AddFunc([]byte{i32}, []byte{i32}, nil, code().LocalGet(0).TableGet(0).RefIsNull().End().B))
 
